@@ -125,6 +125,177 @@ def gen(r, depth, ty, conflict, linear=False):
     return (op, gen(r, d, ty, conflict, linear))      # NEG VIEWO VIEWC Q1 ADDS SUBS IADDS ISUBS
 
 
+# ---- systematic sweep over the operator dispatch paths: every operator x every pair of operand classes
+
+DKINDS = ('num', 'bqmS', 'bqmB', 'bqm0S', 'bqm0B', 'qm', 'viewO', 'viewC')
+
+
+def dispatch_typing(r):
+    """a typing with every variable kind present: two SPIN, two BINARY, one INTEGER and one REAL label"""
+    ls = list(LABELS)
+    r.shuffle(ls)
+    ty = {ls[0]: ('S', None, None), ls[1]: ('S', None, None), ls[2]: ('B', None, None), ls[3]: ('B', None, None)}
+    lb = F(r.choice([-2, -1, 0, 0]))
+    ty[ls[4]] = ('I', F(0), None) if r.random() < .4 else ('I', lb, lb + r.choice([1, 2, 3, 5]))
+    lb = F(r.choice([-3, -1, 0, 0]), 2)
+    ty[ls[5]] = ('R', F(0), None) if r.random() < .3 else ('R', lb, lb + F(r.choice([4, 8, 12]), 8))
+    return ty
+
+
+def d_leaf(r, ty, kinds, conflict=False):
+    l = r.choice([x for x in LABELS if ty[x][0] in kinds])
+    k, lb, ub = ty[l]
+    if conflict:          # the same label with other bounds or another kind
+        if k in 'IR' and r.random() < .5:
+            ub = (ub if ub is not None else F(7)) + 1
+        else:
+            k = r.choice([x for x in KINDS if x != k])
+            lb, ub = (F(0) if k in 'IR' else None), None
+    return ('V', k, l, F(1) if r.random() < .3 else dy(r), lb, ub, None)
+
+
+def d_operand(r, ty, kind, conflict=False):
+    """a small operand of the given class"""
+    if kind == 'num':
+        return ('C', dy(r, True))
+    if kind in ('bqm0S', 'bqm0B'):
+        return ('E', kind[-1], dy(r, True) if r.random() < .7 else F(0), r.randrange(4))
+    if kind in ('bqmS', 'bqmB'):
+        k = kind[-1]
+        a = d_leaf(r, ty, k, conflict)
+        m = r.random()
+        if m < .4:
+            return a
+        if m < .8:
+            return ('ADD', a, r.choice([('C', dy(r, True)), d_leaf(r, ty, k)]))
+        return ('MUL', a, d_leaf(r, ty, k))                    # an interaction, or x*x
+    if kind == 'qm':
+        m = r.random()
+        a = d_leaf(r, ty, 'IR' if m < .7 else 'I', conflict)
+        if m < .3:
+            return a
+        if m < .6:
+            return ('ADD', a, d_leaf(r, ty, 'SB'))               # a promoted BQM inside
+        if m < .7:
+            return ('ADD', d_leaf(r, ty, 'S', conflict), d_leaf(r, ty, 'B'))   # the QM of two BQMs of different vartypes
+        if m < .85:
+            return ('SUB', a, ('C', dy(r, True)))
+        return ('MUL', a, d_leaf(r, ty, 'SBI'))                 # an interaction, or i*i
+    return ('VIEWO' if kind == 'viewO' else 'VIEWC', d_operand(r, ty, r.choice(['bqmS', 'bqmB', 'qm']), conflict))
+
+
+def dispatch_trees(r):
+    """(tree, typing) for every binary / in-place operator and quicksum over every pair of operand classes (15% with a label
+    the right operand types differently: the rejected paths), and every unary form over every class"""
+    out = []
+    for op in BIN2 + ('Q3',):
+        for ka in DKINDS:
+            for kb in DKINDS:
+                ty = dispatch_typing(r)
+                ty['__mixed__'] = False
+                a, b = d_operand(r, ty, ka), d_operand(r, ty, kb, r.random() < .15)
+                out.append(((op, a, b) if op != 'Q3' else (op, a, b, d_operand(r, ty, r.choice(DKINDS))), ty))
+    for op in ('NEG', 'POW', 'DIV', 'IDIV', 'Q1', 'ADDS', 'SUBS', 'MULS', 'IADDS', 'ISUBS'):
+        for ka in DKINDS:
+            ty = dispatch_typing(r)
+            ty['__mixed__'] = False
+            a = d_operand(r, ty, ka)
+            if op == 'POW':
+                out.append((('POW', 2, a), ty))
+            elif op in ('DIV', 'IDIV'):
+                out.append(((op, r.choice([F(2), F(-4), F(1, 2), F(0)]), a), ty))
+            else:
+                out.append(((op, a), ty))
+    return out
+
+
+# ---- the array constructors with NumPy's element-wise operators and reductions
+
+ARRAY_CTOR = {'S': 'SpinArray', 'B': 'BinaryArray', 'I': 'IntegerArray', 'R': None}
+
+
+def realarray(ls):
+    """there is no RealArray constructor: the Reals in an object array"""
+    a = np.empty(len(ls), dtype=object)
+    for i, m in enumerate(dimod.Reals(ls)):
+        a[i] = m
+    return a
+
+
+def fold_add(es):
+    t = es[0]
+    for e in es[1:]:
+        t = ('ADD', t, e)
+    return t
+
+
+def array_tree(r):
+    """(equivalent scalar tree, special entry): `SpinArray/BinaryArray/IntegerArray(labels)` (Reals: `np.array(list(dimod.Reals(labels)))`)
+    combined element-wise with a vector of numbers / a number / a second array and reduced with `.sum()`, `@`, `np.dot` or
+    `quicksum`.  NumPy calls the same operator overloads element by element and folds `+` from the left, so the value must
+    be the one of the scalar tree; the elements must not be modified."""
+    K = r.choice('SSBBBIIR')
+    k = r.choice([1, 2, 2, 3, 3])
+    la = r.sample(LABELS, k)
+    stage = r.choice(['id', 'id', 'wmul', 'mulw', 'addw', 'subw', 'rsubw', 'div', 'neg', 'pow', 'xy', 'xy', 'x+y', 'x-y', 'qmul', 'qadd'])
+    leaf = lambda kk, l: ('V', kk, l, F(1), F(0) if kk in 'IR' else None, None, None)      # noqa: E731
+    a = [leaf(K, l) for l in la]
+    w = [dy(r) for _ in range(k)]
+    q = r.choice([F(2), F(-4), F(1, 2), F(-1), F(8)])      # divisors must be powers of two (exact arithmetic)
+    K2, lb_ = K, la
+    if stage in ('xy', 'x+y', 'x-y'):
+        K2 = r.choice('SBI' + K)
+        rest = [l for l in LABELS if l not in la]
+        lb_ = r.sample(LABELS, k) if K2 == K else (r.sample(rest, k) if len(rest) >= k else None)
+        if lb_ is None:
+            stage = 'id'
+    b = [leaf(K2, l) for l in (lb_ or [])]
+    C = lambda v: ('C', v)      # noqa: E731
+    es = {'id': lambda: a, 'wmul': lambda: [('MUL', C(w[i]), a[i]) for i in range(k)], 'mulw': lambda: [('MUL', a[i], C(w[i])) for i in range(k)],
+          'addw': lambda: [('ADD', a[i], C(w[i])) for i in range(k)], 'subw': lambda: [('SUB', a[i], C(w[i])) for i in range(k)],
+          'rsubw': lambda: [('SUB', C(w[i]), a[i]) for i in range(k)], 'div': lambda: [('DIV', q, a[i]) for i in range(k)],
+          'neg': lambda: [('NEG', a[i]) for i in range(k)], 'pow': lambda: [('POW', 2, a[i]) for i in range(k)],
+          'xy': lambda: [('MUL', a[i], b[i]) for i in range(k)], 'x+y': lambda: [('ADD', a[i], b[i]) for i in range(k)],
+          'x-y': lambda: [('SUB', a[i], b[i]) for i in range(k)], 'qmul': lambda: [('MUL', C(q), a[i]) for i in range(k)],
+          'qadd': lambda: [('ADD', a[i], C(q)) for i in range(k)]}[stage]()
+    red = r.choice(['sum', 'sum', 'quicksum'] + (['x@w', 'w@x', 'dot'] if stage == 'id' else []))
+    if red == 'quicksum' and k == 2:
+        red = 'sum'
+    if red in ('x@w', 'w@x', 'dot'):
+        es = [('MUL', a[i], C(w[i])) if red != 'w@x' else ('MUL', C(w[i]), a[i]) for i in range(k)]
+    t = fold_add(es) if red != 'quicksum' else (('Q1', es[0]) if k == 1 else ('Q3',) + tuple(es))
+
+    def arr_src(kk, ls):
+        return f'dimod.{ARRAY_CTOR[kk]}({ls!r})' if ARRAY_CTOR[kk] else f'realarray({ls!r})'
+    wsrc = 'np.array(' + repr([float(v) for v in w]) + ')'
+    qsrc = repr(int(q) if q.denominator == 1 else float(q))
+    esrc = {'id': 'x', 'wmul': 'w * x', 'mulw': 'x * w', 'addw': 'x + w', 'subw': 'x - w', 'rsubw': 'w - x', 'div': f'x / {qsrc}', 'neg': '-x',
+            'pow': 'x ** 2', 'xy': 'x * y', 'x+y': 'x + y', 'x-y': 'x - y', 'qmul': f'{qsrc} * x', 'qadd': f'x + {qsrc}'}[stage]
+    rsrc = {'sum': f'({esrc}).sum()', 'quicksum': f'dimod.quicksum({esrc})', 'x@w': 'x @ w', 'w@x': 'w @ x', 'dot': 'np.dot(x, w)'}[red]
+    src = f"(lambda x, y, w: {rsrc})({arr_src(K, la)}, {arr_src(K2, lb_) if b else None}, {wsrc})"
+
+    def run_it(ev, node):
+        env = {'dimod': dimod, 'np': np, 'realarray': realarray}
+        x = eval(arr_src(K, la), env)
+        y = eval(arr_src(K2, lb_), env) if b else None
+        wv = np.array([float(v) for v in w])
+        elems = list(x) + (list(y) if y is not None else [])
+        before = [snap(e) for e in elems]
+        try:
+            out = eval(f'lambda x, y, w: {rsrc}', env)(x, y, wv)
+        finally:
+            after = [snap(e) for e in elems]
+            if before != after:
+                i = next(j for j in range(len(elems)) if before[j] != after[j])
+                ev.opfail = (node, i, before[i], after[i])
+        if isinstance(out, np.ndarray):
+            out = out.item()
+        return out
+    KEEP_NODES.append(t)
+    SRC_OVERRIDE[id(t)] = src
+    return t, {id(t): (run_it, f'{K}:{stage}:{red}')}
+
+
 def subtrees(t, out):
     """post order, children first"""
     for c in (() if t[0] in 'VCE' else t[1:]):
@@ -157,6 +328,12 @@ class SkipTree(Exception):
 class Raised(Exception):
     def __init__(self, cls, exc):
         self.cls, self.exc = cls, exc
+
+
+class Unreadable(Exception):
+    """the readers of a value produced by an operator (variables, vartype, bounds, biases) raise: the object is inconsistent"""
+    def __init__(self, node, exc):
+        self.node, self.exc = node, exc
 
 
 def make_leaf(r, t, dtypes, keep):
@@ -218,6 +395,35 @@ def coeffs(o):
             [(u, v, F(float(b))) for u, v, b in o.iter_quadratic()], F(float(o.offset)))
 
 
+def kind_of(o):
+    """operand class as the operator dispatch sees it"""
+    if isinstance(o, BQM):
+        return 'bqm' if o.num_variables else 'bqm0'
+    if isinstance(o, QM):
+        return 'qm'
+    if isinstance(o, ObjectiveView):
+        return 'viewO'
+    if isinstance(o, ConstraintView):
+        return 'viewC'
+    return 'num'
+
+
+def path_name(op, operands, kinds, out, inplace_left):
+    """tick name of one operator dispatch path: operand classes (two BQMs: same / different vartype), result class or
+    exception, and for the in-place forms whether the left operand was mutated or Python fell back on the binary operator"""
+    if len(operands) == 2 and all(isinstance(x, BQM) for x in operands):
+        rel = ' =vt ' if operands[0].vartype is operands[1].vartype else ' !=vt '
+    else:
+        rel = ' , '
+    if isinstance(out, Raised):
+        res = 'raises ' + out.cls
+    else:
+        res = kind_of(out)
+        if inplace_left:
+            res += ' [in place]' if out is operands[0] else ' [fallback on the binary operator]'
+    return f'path {op}: {rel.join(kinds)} -> {res}'
+
+
 class Evaluator:
     """evaluates a tree bottom-up with the real operators, checking operand immutability at each node"""
 
@@ -226,6 +432,7 @@ class Evaluator:
         self.keep = []          # CQMs owning views
         self.res = {}           # id(node) -> ('ok', obj) | ('err', cls)
         self.opfail = None
+        self.special = {}       # id(node) -> (callable(ev), tick): the node is evaluated by an array expression, not by its children
 
     def view_of(self, o, obj):
         if not is_model(o):
@@ -243,7 +450,10 @@ class Evaluator:
     def ev(self, t):
         try:
             o = self._ev(t)
-            self.res[id(t)] = ('ok', o, snap(o), coeffs(o))     # read now: a parent's in-place operator may mutate o
+            try:
+                self.res[id(t)] = ('ok', o, snap(o), coeffs(o))     # read now: a parent's in-place operator may mutate o
+            except Exception as e:       # noqa: BLE001 - whatever the readers raise
+                raise Unreadable(t, e)
             return o
         except Raised as e:
             self.res.setdefault(id(t), ('err', e.cls))
@@ -251,11 +461,18 @@ class Evaluator:
 
     def apply(self, t, f, operands, inplace_left=False):
         before = [snap(x) for x in operands]
+        kinds = [kind_of(x) for x in operands]
         try:
             out = f()
         except (TypeError, ValueError, ZeroDivisionError) as e:
             out = Raised(ERRS[type(e)], e)
-        after = [snap(x) for x in operands]
+        try:
+            after = [snap(x) for x in operands]
+        except Exception as e:       # noqa: BLE001
+            raise Unreadable(t, e)
+        self.ctx.tick(path_name(t[0], operands, kinds, out, inplace_left))
+        if isinstance(out, Raised) and not inplace_left and any(is_model(x) or is_view(x) for x in operands):
+            self.ctx.tick('rejected non-in-place operator: operands compared before/after')
         for i, (b, a) in enumerate(zip(before, after)):
             if b != a and not (inplace_left and i == 0 and out is operands[0]):
                 if inplace_left and i == 0 and isinstance(out, Raised):
@@ -269,6 +486,15 @@ class Evaluator:
 
     def _ev(self, t):
         op = t[0]
+        if id(t) in self.special:
+            f, how = self.special[id(t)]
+            try:
+                out = f(self, t)
+            except (TypeError, ValueError, ZeroDivisionError) as e:
+                self.ctx.tick(f'array form: {how} -> raises {ERRS[type(e)]}')
+                raise Raised(ERRS[type(e)], e)
+            self.ctx.tick(f'array form: {how} -> {kind_of(out)}')
+            return out
         if op == 'V':
             try:
                 return make_leaf(self.r, t, self.dtypes, self.keep)
@@ -413,8 +639,14 @@ def model_energy(co, x):
     return off + sum(b * x[v] for v, b in lin.items()) + sum(b * x[u] * x[v] for u, v, b in quad)
 
 
+SRC_OVERRIDE = {}      # id(node) -> source text, for nodes evaluated through another API than the scalar operators (array forms)
+KEEP_NODES = []        # keeps those nodes alive so that their ids stay unique
+
+
 def pyexpr(t):
     """source text building the tree with the real operators (helpers defined in PRE)"""
+    if id(t) in SRC_OVERRIDE:
+        return SRC_OVERRIDE[id(t)]
     op = t[0]
     if op == 'V':
         _, k, l, b, lb, ub, dt = t
@@ -442,8 +674,14 @@ def pyexpr(t):
 
 
 PRE = '''import dimod
+import numpy as np
 from fractions import Fraction as F
 KEEP = []
+def realarray(ls):
+    a = np.empty(len(ls), dtype=object)
+    for i, m in enumerate(dimod.Reals(ls)):
+        a[i] = m
+    return a
 def iadd(a, b):
     a += b; return a
 def isub(a, b):
@@ -530,6 +768,168 @@ def check_node(ctx, t, ev, site_of):
     return True
 
 
+READ = ('def read(o):\n'
+        '    if hasattr(o, "variables"):\n'
+        '        [(o.get_linear(v), o.vartype(v) if callable(o.vartype) else o.vartype, o.lower_bound(v), o.upper_bound(v)) for v in o.variables]\n'
+        '        list(o.iter_quadratic()); o.offset\n')
+
+
+def report_unreadable(ctx, u):
+    """an operator left a model whose own readers raise (e.g. it lists a variable whose vartype/bias cannot be read): its
+    energy cannot even be computed from what it reports"""
+    node = u.node
+    kids = [c for c in node[1:] if isinstance(c, tuple)] if node[0] not in 'VCE' else []
+    names = [f'o{i}' for i in range(len(kids))]
+    op = node[0]
+    if not kids:
+        call = pyexpr(node)
+    elif op in ('ADD', 'SUB', 'MUL'):
+        call = f"o0 {dict(ADD='+', SUB='-', MUL='*')[op]} o1"
+    elif op in ('DIV', 'POW', 'IDIV'):
+        q = int(node[1]) if F(node[1]).denominator == 1 else float(node[1])
+        call = {'DIV': f'o0 / {q!r}', 'POW': f'o0 ** {q!r}', 'IDIV': f'idiv(o0, {q!r})'}[op]
+    elif op == 'NEG':
+        call = '-o0'
+    elif op in ('Q1', 'Q3'):
+        call = f"dimod.quicksum([{', '.join(names)}])"
+    else:
+        call = f"{op.lower()}({', '.join(names)})"
+    binds = ''.join(f'{n} = {pyexpr(c)}\n' for n, c in zip(names, kids))
+    ctx.fail('property', {'V': 'constructor', 'C': 'number', 'E': 'variable-free BQM'}.get(node[0], 'operator ' + node[0]), 'result unreadable',
+             f'after evaluating {node[0]} the readers of the result or of an operand raise {u.exc!r}',
+             repro=PRE + READ + binds + f'try:\n    r = {call}\nexcept (TypeError, ValueError, ZeroDivisionError):\n    r = None\n'
+                   f"try:\n    [read(o) for o in [r, {', '.join(names)}]]\nexcept Exception as e:\n    raise AssertionError(repr(e))\n",
+             detail=dict(tree=line_of(node)))
+
+
+def compare_two(ctx, r, ev, t, ty, lines, expect, meta):
+    """`a <= b`, `a >= b`, `a == b` with the evaluated root on one side and a second small evaluated tree on the other (either
+    order, every class on both sides), then the constraint a fresh CQM stores for the Comparison.  Predicate, from the
+    definition only: operands unchanged; when a Comparison comes out, its activity lhs(x) - rhs on the full grid of small
+    samples is a(x) - b(x) with the written sense, or b(x) - a(x) with the flipped sense when the number was written on the
+    left; it holds iff the written comparison holds; the stored constraint has the same activity, sense, rhs and variable
+    types/bounds and the Comparison's model is unchanged by add_constraint.  Returns the number of property failures."""
+    t2 = ('C', dy(r, True)) if r.random() < .45 else gen(r, r.choice([0, 1, 2]), ty, False)
+    try:
+        ev.ev(t2)
+    except (Raised, SkipTree):
+        return 0
+    except Unreadable as u:
+        report_unreadable(ctx, u)
+        return 1
+    a, b = (t, t2) if r.random() < .5 else (t2, t)
+    oa, ob = (ev.res[id(n)][1] for n in (a, b))
+    oa, ob = (float(o) if isinstance(o, np.floating) else o for o in (oa, ob))
+    kind = r.choice(['LE', 'GE', 'EQ'])
+    sym = {'LE': '<=', 'GE': '>=', 'EQ': '=='}[kind]
+    csrc = f'({pyexpr(a)}) {sym} ({pyexpr(b)})'
+    site = 'comparison ' + kind
+    before = (snap(oa), snap(ob))
+    try:
+        res = {'LE': lambda: oa <= ob, 'GE': lambda: oa >= ob, 'EQ': lambda: oa == ob}[kind]()
+    except TypeError:
+        res = TypeError
+    after = (snap(oa), snap(ob))
+    is_cmp = isinstance(res, dimod.sym.Comparison)
+    ctx.tick(f"path CMP2 {kind}: {kind_of(oa)} , {kind_of(ob)} -> {'raises type' if res is TypeError else 'Comparison' if is_cmp else 'bool'}")
+    ln = f'CMP2 {kind} {line_of(a)} {line_of(b)}'
+    lines.append(ln); meta.append((site, csrc))
+    ctx.case(ln, nontrivial=True)
+    if before != after:
+        ctx.fail('property', site, 'operand modified', f'`{csrc}` changed an operand: {before} -> {after}',
+                 repro=PRE + f'# an operand of the comparison is modified by evaluating\nc = {csrc}\nassert False\n', detail=dict(line=ln))
+        expect.append('MODIFIED')
+        return 1
+    if res is TypeError:
+        expect.append('err type')
+        return 0
+    if not is_cmp:
+        expect.append('ok bool')
+        return 0
+    sense = {'Le': 'le', 'Ge': 'ge', 'Eq': 'eq'}[type(res).__name__]
+    expect.append(f'ok cmp {sense} {rat(res.rhs)} ' + snap(res.lhs))
+    num_left = not (is_model(oa) or is_view(oa))
+    want_sense = {'LE': 'le', 'GE': 'ge', 'EQ': 'eq'}[kind]
+    if num_left:
+        want_sense = {'le': 'ge', 'ge': 'le', 'eq': 'eq'}[want_sense]
+    rco = coeffs(res.lhs)
+    labels = sorted(rco[0], key=repr)
+    doms = [domain(*rco[0][l]) for l in labels]
+    zero = {lf[2]: F(0) for lf in leaves(a, []) + leaves(b, [])}
+    grid = list(itertools.islice(itertools.product(*doms), 250))
+    rhs = F(float(res.rhs))
+
+    def wanted(x):
+        ea, eb = tree_eval(a, {**zero, **x}), tree_eval(b, {**zero, **x})
+        return (eb - ea if num_left else ea - eb), {'LE': ea <= eb, 'GE': ea >= eb, 'EQ': ea == eb}[kind]
+
+    def xs_of(x):
+        return {l: (int(v) if v.denominator == 1 else float(v)) for l, v in x.items()}
+
+    for vals in grid:
+        x = dict(zip(labels, vals))
+        act = model_energy(rco, x) - rhs
+        want, written = wanted(x)
+        held = {'le': act <= 0, 'ge': act >= 0, 'eq': act == 0}[sense]
+        if act != want or sense != want_sense or held != written:
+            ctx.fail('property', site, 'activity' if act != want else 'sense',
+                     f'`{csrc}` gives {type(res).__name__} with lhs-rhs = {act} at {xs_of(x)}; the operands give {want} '
+                     f'(sense {want_sense}) and the written comparison is {written}',
+                     repro=PRE + f'c = {csrc}\nx = {xs_of(x)!r}\nx = {{k: F(v) for k, v in x.items()}}\n'
+                                 f"a = energy(c.lhs, x) - F(c.rhs)\nassert a == F({str(want)!r}) and c.sense.value == {dict(le='<=', ge='>=', eq='==')[want_sense]!r}, (c, a)\n",
+                     detail=dict(line=ln))
+            return 1
+    # the constraint a CQM stores for the comparison
+    if res.lhs.dtype == object:
+        ctx.tick('CON skipped: object dtype')
+        return 0
+    cqm = dimod.ConstrainedQuadraticModel()
+    b4 = snap(res.lhs)
+    try:
+        lbl = cqm.add_constraint(res)
+    except (TypeError, ValueError) as e:
+        ctx.fail('property', 'CQM.add_constraint(comparison)', 'rejected', f'`{csrc}` is refused by add_constraint: {e!r}',
+                 repro=PRE + f'dimod.ConstrainedQuadraticModel().add_constraint({csrc})\n', detail=dict(line=ln))
+        return 1
+    c = cqm.constraints[lbl]
+    ev.keep.append(cqm)
+    cco = coeffs(c.lhs)
+    csense = {'<=': 'le', '>=': 'ge', '==': 'eq'}[c.sense.value]
+    ctx.tick(f'path CON {csense}: {kind_of(res.lhs)} -> constraint')
+    ln2 = f'CON {kind} {line_of(a)} {line_of(b)}'
+    lines.append(ln2); meta.append(('CQM.add_constraint(comparison)', csrc))
+    expect.append(f'ok con {csense} {rat(c.rhs)} qm ' + snap(c.lhs)[len('view '):])
+    ctx.case(ln2, nontrivial=True)
+    crepro = PRE + f'm = {pyexpr(a if not num_left else b)}\nq = {(ob if not num_left else oa)!r}\n' \
+                   f"cmp = {'m ' + sym + ' q' if not num_left else 'q ' + sym + ' m'}\ncqm = dimod.ConstrainedQuadraticModel()\n" \
+                   'c = cqm.constraints[cqm.add_constraint(cmp)]\n'
+    if snap(res.lhs) != b4 or c.lhs is res.lhs:
+        ctx.fail('property', 'CQM.add_constraint(comparison)', 'operand modified',
+                 f'add_constraint(`{csrc}`) changed the comparison\'s model: {b4} -> {snap(res.lhs)}',
+                 repro=crepro + 'before = (m.linear, m.quadratic, m.offset) if False else None\nassert False\n', detail=dict(line=ln2))
+        return 1
+    if csense != sense or F(float(c.rhs)) != rhs or cco[0] != rco[0]:
+        ctx.fail('property', 'CQM.add_constraint(comparison)', 'sense/rhs/varinfo',
+                 f'add_constraint(`{csrc}`) stores sense {csense} rhs {c.rhs} vars {cco[0]}; the comparison has {sense} {res.rhs} {rco[0]}',
+                 repro=crepro + f'assert c.sense.value == cmp.sense.value and c.rhs == cmp.rhs\n'
+                                'assert all(c.lhs.vartype(v) is (m.vartype(v) if callable(m.vartype) else m.vartype) for v in m.variables)\n'
+                                'assert all(c.lhs.lower_bound(v) == m.lower_bound(v) and c.lhs.upper_bound(v) == m.upper_bound(v) for v in m.variables if callable(m.vartype))\n',
+                 detail=dict(line=ln2))
+        return 1
+    for vals in grid:
+        x = dict(zip(labels, vals))
+        act = model_energy(cco, x) - F(float(c.rhs))
+        want, _w = wanted(x)
+        if act != want:
+            ctx.fail('property', 'CQM.add_constraint(comparison)', 'activity',
+                     f'the constraint stored for `{csrc}` has lhs-rhs = {act} at {xs_of(x)}; the operands give {want}',
+                     repro=crepro + f'x = {xs_of(x)!r}\nx = {{k: F(v) for k, v in x.items()}}\n'
+                                    f'assert energy(c.lhs, x) - F(c.rhs) == F({str(want)!r}), energy(c.lhs, x) - F(c.rhs)\n',
+                     detail=dict(line=ln2))
+            return 1
+    return 0
+
+
 def conflict_labels(ev, t):
     """labels that two model operands of a binary node disagree on (vartype, or bounds of INTEGER/REAL)"""
     ops = [c for c in t[1:] if isinstance(c, tuple) and ev.res.get(id(c), ('err',))[0] == 'ok']
@@ -551,21 +951,44 @@ def run(ctx):
                 'sub-tree; non-trivial = it has at least one operator; distinct by the tree text')
     lines, expect, meta = [], [], []
     nprop = 0
-    for ti in range(ntrees):
-        mixed = r.random() < .25
-        ty = gen_typing(r, mixed)
-        ty['__mixed__'] = mixed
-        conflict = r.random() < .2
-        t = gen(r, r.choice([1, 2, 3, 3, 4, 4, 5]), ty, conflict)
+    extra = []
+    for _ in range(ctx.scale(2, 12)):
+        extra.extend((t_, ty_, None) for t_, ty_ in dispatch_trees(r))
+    aty = {l: ('B', None, None) for l in LABELS}
+    aty['__mixed__'] = False
+    for _ in range(ctx.scale(600, 6000)):
+        t_, sp_ = array_tree(r)
+        extra.append((t_, aty, sp_))
+    for ti in range(len(extra) + ntrees):
+        cut = False
+        special = None
+        if ti < len(extra):
+            t, ty, special = extra[ti]
+            mixed = False
+            ctx.tick('tree: systematic dispatch sweep' if special is None else 'tree: array form')
+        else:
+            mixed = r.random() < .25
+            ty = gen_typing(r, mixed)
+            ty['__mixed__'] = mixed
+            conflict = r.random() < .2
+            t = gen(r, r.choice([1, 2, 3, 3, 4, 4, 5]), ty, conflict)
         dtypes = {}
         src = pyexpr(t)
         ev = Evaluator(ctx, r, dtypes, src)
+        if special:
+            ev.special = special
         try:
             ev.ev(t)
         except Raised:
             pass
         except SkipTree:
             ctx.tick('skipped: view of an object-dtype model')
+            continue
+        except Unreadable as u:
+            report_unreadable(ctx, u)
+            nprop += 1
+            if nprop >= 8:
+                break
             continue
 
         def site_of(node):
@@ -595,9 +1018,11 @@ def run(ctx):
                     if any(F(float(np.float32(float(v)))) != v for v in vals):
                         ctx.tick('cut_for_precision')
                         lines.pop(); expect.pop(); meta.pop()
+                        cut = True
                         break
                 if not check_node(ctx, node, ev, site_of):
                     nprop += 1
+                    cut = True
                     break
             # conflicting operands must be rejected
             if node[0] in BIN2 + ('Q3',) and kind == 'ok':
@@ -620,6 +1045,11 @@ def run(ctx):
                     if lb_ and any(lb_[v] != list(lb_.values())[-1] for v in shared):
                         ctx.tick('mul: shared label, coefficient != last coefficient of the right operand')
                     ia, ib = (ev.res[id(c)][3][0] for c in node[1:])
+                    okn = ev.res.get(id(node), ('err', '?'))
+                    for v in shared:
+                        if ia[v] == ib[v]:
+                            how = {'B': 'BINARY -> linear bias', 'S': 'SPIN -> offset', 'I': 'INTEGER -> self-loop', 'R': 'REAL -> rejected'}[ia[v][0]]
+                            ctx.tick(f'mul: repeated label, {how}' + ('' if okn[0] == 'ok' else f' (raises {okn[1]})'))
                     if any(ia[v][0] != ib[v][0] and ia[v][1:] == ib[v][1:] for v in shared):
                         ctx.tick('mul: shared label, different vartype over identical bounds')
         # a comparison with a number at the root (dimod.sym): Le / Ge / Eq objects
@@ -669,6 +1099,8 @@ def run(ctx):
                         break
             else:
                 expect.append('ok bool')
+        if ev.res.get(id(t), ('err',))[0] == 'ok' and not cut and special is None and r.random() < (.5 if ti < len(extra) else .3):
+            nprop += compare_two(ctx, r, ev, t, ty, lines, expect, meta)
         if nprop >= 8:
             break
     got = run_driver('symdriver', lines)
